@@ -1,4 +1,110 @@
-From Coq Require Import List ZArith.
+(* props/C21.v — property theorems for C21 (exemplar storage keeps the newest accepted
+   exemplars in order). Nothing but statements; proofs are in proof/ExemplarProofs.v.
+
+   Three models (model/Exemplar.v): the pointer-level model of tsdb/exemplar.go ([run], tied
+   to the code by the correspondence check incl. dumps of prev/next/index), the ring-level
+   model ([r_run]: same nextIndex / eviction / grow / shrink arithmetic, per-series lists
+   derived by a stable sort instead of stored as pointers) and the reference ([sp_run]: the
+   list of retained (series, exemplar) pairs in acceptance order, capacity, window).
+
+   FULL STATEMENT (design):  forall l w ops, run (new_state l w) ops = sp_run WIdeal (sp_new l w) ops
+   on int64 inputs, modulo dumps.  PROVED here: that statement for the ring-level model
+   (C21_refines_partial), and every clause of the property for the reference.  MISSING: the
+   simulation between the pointer-level model and the ring-level model (that the doubly linked
+   lists threaded through the ring are exactly the derived sorted lists); it is checked per
+   generated history by vm_compute (corr/CorrC21.v: agree runs both models), not proved. *)
+From Coq Require Import List ZArith Permutation.
 From Verif Require Import lib.Int64 model.Exemplar proof.ExemplarProofs.
 Import ListNotations.
 Open Scope Z_scope.
+
+(* Any history of add / validate / resize / set-window / select / iterate on the ring (slots,
+   nextIndex, eviction of the slot at nextIndex, grow, the three shrink cases, the window rule
+   as the code computes it with wrapping int64 and uint64 conversions) never panics and
+   returns exactly what the reference returns, for all int64 timestamps and windows. *)
+Theorem C21_refines_partial : forall l w ops,
+  int64 w -> Forall op_int64 ops ->
+  r_run (r_new l w) ops = sp_run WIdeal (sp_new l w) ops.
+Proof. exact thm_refines_partial. Qed.
+
+(* Every reachable ring keeps its holes before its live slots in ingestion order (so eviction at
+   nextIndex is eviction of the oldest accepted exemplar) and nextIndex stays in range. *)
+Theorem C21_ring_invariant : forall l w ops, exists r, r_exec (r_new l w) ops = Ok r /\ RInv r.
+Proof. exact thm_ring_invariant. Qed.
+
+(* Accepting an exemplar overwrites the slot at nextIndex: retained = newest [capacity] of (retained ++ new). *)
+Theorem C21_add_evicts_oldest : forall r sid e r',
+  RInv r -> r_add r sid e = Ok (r', AddStored) ->
+  r_kept r' = lastn (Z.to_nat (zlen (r_ring r))) (r_kept r ++ [(sid, e)]) /\ zlen (r_ring r') = zlen (r_ring r).
+Proof. exact thm_add_evicts_oldest. Qed.
+
+(* Resizing (grow, shrink, to zero, negative) keeps exactly the most recently accepted exemplars that fit. *)
+Theorem C21_resize_keeps_newest : forall r l, RInv r ->
+  exists r' m, r_resize r l = Ok (r', m) /\ RInv r' /\
+    zlen (r_ring r') = Z.max l 0 /\
+    r_kept r' = lastn (Z.to_nat (Z.max l 0)) (r_kept r) /\ r_win r' = r_win r.
+Proof. exact thm_resize_keeps_newest. Qed.
+
+(* Without resizes the store holds exactly the newest [capacity] exemplars it ever stored, in acceptance order. *)
+Theorem C21_retains_newest : forall l w ops, Forall no_resize ops ->
+  sp_kept (sp_exec WIdeal (sp_new l w) ops) = lastn (Z.to_nat (Z.max l 0)) (sp_log WIdeal (sp_new l w) ops).
+Proof. exact thm_retains_newest. Qed.
+
+(* The store never holds more than its capacity, whatever the history. *)
+Theorem C21_capacity : forall l w ops,
+  zlen (sp_kept (sp_exec WIdeal (sp_new l w) ops)) <= sp_cap (sp_exec WIdeal (sp_new l w) ops).
+Proof. exact thm_capacity. Qed.
+
+(* Select returns, per matching series, a non-empty group sorted by non-decreasing timestamp that
+   is exactly (with multiplicity) the retained exemplars of that series within the range ... *)
+Theorem C21_select_sound : forall s lo hi m sid l,
+  In (sid, l) (sp_select s lo hi m) ->
+  In sid m /\ l <> [] /\ sorted l /\ Permutation l (filter (in_range lo hi) (of_series sid (sp_kept s))).
+Proof. exact sp_select_sound. Qed.
+
+(* ... and misses nothing. *)
+Theorem C21_select_complete : forall s lo hi m sid e,
+  In (sid, e) (sp_kept s) -> In sid m -> in_range lo hi e = true ->
+  exists l, In (sid, l) (sp_select s lo hi m) /\ In e l.
+Proof. exact sp_select_complete. Qed.
+
+(* The out-of-order window as the code computes it (uint64 of the wrapped int64 difference) is the
+   documented rule e.Ts <= newest.Ts - window on all int64 inputs ... *)
+Theorem C21_window_rule : forall w ne e, int64 w -> int64 (e_ts ne) -> int64 (e_ts e) ->
+  validate_against WFixed w (Some ne) e = validate_against WIdeal w (Some ne) e.
+Proof. exact thm_window_rule. Qed.
+
+(* ... which the code before "fix: tsdb: exemplar out-of-order window check overflows near MinInt64" violated. *)
+Theorem C21_window_wrap_old_refuted : exists w ne e,
+  int64 w /\ int64 (e_ts ne) /\ int64 (e_ts e) /\
+  validate_against WOld w (Some ne) e = VOOO /\ validate_against WIdeal w (Some ne) e = VOk.
+Proof. exact window_wrap_old_refuted. Qed.
+
+(* Pointer level (the model with prev/next/index, as dumped from the implementation): in every state
+   that satisfies the executable well-formedness predicate [wfb] (holes first, every index entry
+   heads a doubly linked in-range chain of its series' live slots whose exemplars are the stable
+   sort by timestamp of the retained ones, every live slot on its chain) ValidateExemplar, Select
+   (the walk along next pointers with its early exits, the final sort) and IterateExemplars never
+   panic or loop and return what the ring-level model returns, hence (C21_refines_partial) what the
+   reference returns. [wfb] is evaluated after every operation of every generated history by the
+   correspondence check; that the two writers (AddExemplar, Resize) preserve it is NOT proved. *)
+Theorem C21_pointer_reads_partial : forall st o, wfb st = true ->
+  match o with
+  | OValidate _ _ | OSelect _ _ _ | OIter =>
+      exists b, step st o = Ok (st, b) /\ r_step (abs_ring st) o = Ok (abs_ring st, b)
+  | _ => True
+  end.
+Proof. exact reads_correct. Qed.
+
+Example C21_pointer_nonvacuous : exists st, exec (new_state 3 50) (firstn 6 demo_ops) = Ok st /\ wfb st = true /\
+  index st = [(0, (0, 2)); (1, (1, 1))] /\ nexti st = 2.
+Proof. exact demo_wf. Qed.
+
+(* non-vacuity: a history with out-of-order insertion, eviction, duplicates, shrink and grow (demo_ops in the proof file) *)
+Example C21_nonvacuous :
+  Forall op_int64 demo_ops /\
+  r_run (r_new 3 50) demo_ops =
+    [BErr VOk; BErr VOk; BErr VOk; BErr VOk; BErr VOk; BErr VOk; BErr VOOO; BInt 2; BErr VOk; BInt 2;
+     BIter [(1, ex1 90 1); (1, ex1 95 1)]; BSel [(1, [ex1 90 1; ex1 95 1])]] /\
+  run (new_state 3 50) demo_ops = r_run (r_new 3 50) demo_ops.
+Proof. exact demo_nonvacuous. Qed.
